@@ -448,33 +448,28 @@ Proof. exact keyonly_weight_needs_low_s. Qed.
 
 (* ---- the raw key hash leaf (expr_raw_pkh; arises only when a script is decoded from bytes) ----
    With a satisfier that resolves the hash the satisfaction is [sig item; key item] and the
-   dissatisfaction [empty; key item]. For a compressed key (ECDSA contexts) and an x-only key (Tap)
-   both are within the figures of pk_h(None), for every rule set. For an UNCOMPRESSED key they are not:
-   the figure counts 34 bytes for the key item, the satisfier pushes 66 (finding
-   rawpkh:uncompressed-key-counted-as-34). With the candidate repair (66 outside Tap) both key forms
-   are covered. *)
+   dissatisfaction [empty; key item]. THE CODE AS WRITTEN (since /repo 46f3eb21: pk_h(None) assumes a
+   66-byte key item outside Tap), every rule set: for every key form the resolver can return --
+   compressed or uncompressed in the ECDSA contexts, x-only in Tap -- both are within the figures.
+   Full strength for the leaf. The regression Example is about the figure before that commit (34). *)
 Theorem C09_raw_pkh_bound :
   forall fx c h r,
-    (if xc_schnorr c then rawres_xonly r else rawres_compressed r) ->
+    (if xc_schnorr c then rawres_xonly r else rawres_compressed r \/ rawres_uncompressed r) ->
     exists s d, sat_data (ext_of_gen fx c (MRawPkH h)) = Some s /\ dissat_data (ext_of_gen fx c (MRawPkH h)) = Some d
                 /\ items_within (raw_sat_items r) s /\ items_within (raw_dissat_items r) d.
 Proof. exact raw_pkh_bound. Qed.
 Print Assumptions C09_raw_pkh_bound.
-Theorem C09_raw_pkh_uncompressed_refuted :
+Example C09_raw_pkh_bound_tight :
   forall fx c h, xc_schnorr c = false ->
+    exists s, sat_data (ext_of_gen fx c (MRawPkH h)) = Some s /\ sd_wsize s = items_sum (raw_sat_items (mkRawRes 73 66)).
+Proof. exact raw_pkh_bound_tight. Qed.
+Example C09_hist_raw_pkh_pre_46f3eb21_undershoot :
+  forall fx,
     exists r s d, rawres_uncompressed r
-                  /\ sat_data (ext_of_gen fx c (MRawPkH h)) = Some s /\ dissat_data (ext_of_gen fx c (MRawPkH h)) = Some d
+                  /\ sat_data (ext_pk_h_none_34 fx false) = Some s /\ dissat_data (ext_pk_h_none_34 fx false) = Some d
                   /\ sd_wsize s < items_sum (raw_sat_items r) /\ sd_ssig s < items_sum (raw_sat_items r)
                   /\ sd_wsize d < items_sum (raw_dissat_items r).
-Proof. exact raw_pkh_uncompressed_refuted. Qed.
-Print Assumptions C09_raw_pkh_uncompressed_refuted.
-Theorem C09_raw_pkh_bound_fixed :
-  forall (schnorr : bool) (r : rawres),
-    (if schnorr then rawres_xonly r else rawres_compressed r \/ rawres_uncompressed r) ->
-    exists s d, sat_data (ext_pk_h_none_fixed schnorr) = Some s /\ dissat_data (ext_pk_h_none_fixed schnorr) = Some d
-                /\ items_within (raw_sat_items r) s /\ items_within (raw_dissat_items r) d.
-Proof. exact raw_pkh_bound_fixed. Qed.
-Print Assumptions C09_raw_pkh_bound_fixed.
+Proof. exact raw_pkh_pre_46f3eb21_undershoot. Qed.
 Example C09_ko_nonvacuous :
   rawres_compressed (mkRawRes 73 34) /\ rawres_xonly (mkRawRes 66 33) /\ rawres_uncompressed (mkRawRes 73 66)
   /\ items_sum (raw_sat_items (mkRawRes 73 34)) = 107 /\ items_sum (raw_sat_items (mkRawRes 66 33)) = 99.
